@@ -12,6 +12,7 @@ mod c02;
 mod c12;
 mod c13;
 mod c17;
+mod c18;
 mod mgr;
 mod world;
 
@@ -85,6 +86,7 @@ fn new_exec(prop: &str, case_no: u64) -> Box<dyn CaseExec> {
         "C12" => Box::new(c12::Exec::new(case_no)),
         "C13" => Box::new(c13::Exec::new(case_no)),
         "C17" => Box::new(c17::Exec::new(case_no)),
+        "C18" => Box::new(c18::Exec::new(case_no)),
         _ => {
             eprintln!("unknown property {}", prop);
             std::process::exit(2);
